@@ -227,6 +227,7 @@ class Check:
         self.violations = []       # dicts: {what, case, suite, finding}
         self.known = []
         self.broken = []           # names of obligations / suites that no longer check
+        self.disagreements = []    # first model-vs-implementation differences per suite (for the replay file)
         self.cov = {"suites": {}}
         self.samples = []
         self.evaluations = 0
@@ -307,6 +308,7 @@ class Check:
             replay_path = os.path.join(VERIF, "replays", "%s-%s-%d.json" % (self.pid, self.tier, int(time.time())))
             replay = {"property": self.pid, "seed": self.seed, "tier": self.tier,
                       "broken_obligations": self.broken,
+                      "model_vs_implementation": self.disagreements[:12],
                       "violations": unlisted[:20]}
             with open(replay_path, "w") as f:
                 json.dump(replay, f, indent=1, sort_keys=True)
@@ -422,6 +424,7 @@ def differential(chk, suite_name, cases, entry, model_cases=None, impl_fn="impl"
                 chk.violation(v, c, suite_name, classify(c, a_raw, v) if classify else None)
     chk.add_cases(cases, flags)
     chk.traces += len(cases)
+    chk.disagreements.extend({"suite": suite_name, "case": d["case"], "impl": d["impl"], "model": d["model"]} for d in dis[:3])
     if model_ok:
         chk.obligation("suite:" + suite_name, not dis,
                        "" if not dis else "%d disagreements, first: %s" % (len(dis), canon(dis[0])[:600]))
